@@ -419,6 +419,31 @@ def p7(ctx):
                         if all(isinstance(r, tuple) and r[0] == "call" and r[1] == "contains" and r[3] for r in (r0, r1)) and strip_role(r0[3][0]) == strip_role(r1[3][0]) and r0[3][1:] != r1[3][1:]:
                             pred = sub
                             pred_op = op_
+                # (1a) the set the test is made against is the very set the class is given (in the class's own slot names): the
+                #      caller's spelling of the kept slots, taken before the translation through from.m^-1, contains none of the
+                #      generators' slots — every symmetry then looks restrictable and nothing is re-asserted
+                if pred is not None:
+                    def norm_set(r_):
+                        r_ = strip_role(r_)
+                        while isinstance(r_, tuple) and r_[0] == "upvar":
+                            r_ = strip_role(r_[2])
+                        return role_str(r_, 14)
+                    stored_roles = {norm_set(b.role_of_rvalue(rv))}
+                    tested = set()
+                    for sub in b.all_bodies():
+                        if sub is not pred:
+                            continue
+                        for x in sub.calls:
+                            if x.callee and x.callee.name == "contains" and x.args and not sub.blocks[x.bb]["cleanup"]:
+                                tested.add(norm_set(sub.role_of_operand(x.args[0])))
+                    if tested:
+                        # (compared loosely: what must not happen is that the test uses a bare parameter — the caller's set —
+                        #  while the class is given a set derived from it)
+                        params_ = {b.var_names.get(l) for l in range(1, b.argc + 1)}
+                        bare = {t_ for t_ in tested if t_ in params_}
+                        ctx.check(not (bare - stored_roles), "restrictable-tested-against-stored-set:" + C.fkey(b), "the generators are split by membership in the slot set that is stored in the class",
+                                  "%s splits the generators by membership in %s, but stores %s as the class's slot set: a generator permutes the class's OWN slots, so the test must use the kept set in the class's names (the caller's spelling of it contains none of them — every symmetry passes as restrictable, is cut down to a partial map, and the rest of the orbit is never made redundant)" % (C.short(wid), sorted(tested)[0][:70], sorted(stored_roles)[0][:70]),
+                                  where_of(b, bi, s.get("line")))
                 # (1b) a generator can be restricted only if EVERY entry keeps its side of the new slot set: when the test is a
                 #      closure handed to an iterator quantifier, that quantifier is `all` (or `any` over the negated test)
                 if pred is not None and pred.kind == "Closure" and pred_op in ("eq", "ne"):
